@@ -33,7 +33,10 @@ class Probe:
     """work/ : go.mod (module probe.test), objmod/ (module obj.test), rt/, fx/ (probe.test/fx),
     ext/<n>/ (fixture modules at foreign import paths), g<id>/ (generated packages), main.go"""
 
-    def __init__(self, name="probe", ext_paths=(), inner_paths=("probe.test/fx",), types_only=False):
+    INNER = ("probe.test/fx", "probe.test/fy", "probe.test/p", "probe.test/pq", "probe.test/p/q", "probe.test/x/p", "probe.test/we-ird.v2", "probe.test/x/p/p")
+    EXT = (("a.test", "a.test/p"), ("a.test", "a.test/p/q"), ("ab.test", "ab.test/p"))
+
+    def __init__(self, name="probe", ext_paths=EXT, inner_paths=INNER, types_only=False):
         self.types_only = types_only
         self.dir = core.subdir(name)
         if os.listdir(self.dir):
@@ -59,8 +62,10 @@ class Probe:
             os.makedirs(d, exist_ok=True)
             with open(os.path.join(d, "fx.go"), "w") as f:
                 f.write(fixture_source(re.sub(r"[^A-Za-z0-9_]", "_", ip.split("/")[-1]), ip, types_only).replace('"probe.test/obj"', '"obj.test/obj"'))
-        for i, (modpath, pkgpath) in enumerate(ext_paths):
+        modidx = {}
+        for (modpath, pkgpath) in ext_paths:
             # module `modpath` providing package `pkgpath` (modpath is a prefix of pkgpath)
+            i = modidx.setdefault(modpath, len(modidx))
             md = os.path.join(self.dir, "ext", "m%d" % i)
             sub = pkgpath[len(modpath):].lstrip("/")
             os.makedirs(os.path.join(md, sub), exist_ok=True)
@@ -104,36 +109,66 @@ class Probe:
         self.pkgs[name] = {"ctor": ctor, "stub": stub, "pkg": pkg, "declared_pkg": declared}
 
     # ------------------------------------------------------------------ build
+    def _parse_failures(self, text):
+        found = {}
+        cur = None
+        for line in text.split("\n"):
+            m = re.match(r"^# probe\.test/(\S+)", line)
+            if m:
+                cur = m.group(1).split("/")[0]
+                continue
+            m2 = re.match(r"^(?:\./)?([A-Za-z]\w*)/[^:\s]+\.go:\d+", line)
+            if m2 and m2.group(1) in self.pkgs:       # errors reported without a package header (e.g. unresolvable imports)
+                found.setdefault(m2.group(1), []).append(line)
+                continue
+            if cur is not None and line.strip() and cur in self.pkgs:
+                found.setdefault(cur, []).append(line)
+        return found
+
     def build(self, race=False, tags=None):
-        """Compile every package (failures are recorded per package), then link the good ones."""
-        names = sorted(self.pkgs)
-        cmd = ["go", "build"] + (["-tags", tags] if tags else []) + ["./..."]
-        p = core.sh(cmd, cwd=self.dir, check=False, timeout=3600)
+        """Compile every package (failures are recorded per package and set aside), then link the good ones."""
         self.failed = {}
-        if p.returncode != 0:
-            cur = None
-            for line in p.stdout.split("\n"):
-                m = re.match(r"^# probe\.test/(\S+)", line)
-                if m:
-                    cur = m.group(1).split("/")[0]
-                    continue
-                if cur is not None and line.strip():
-                    self.failed.setdefault(cur, []).append(line)
-            unknown = [k for k in self.failed if k not in self.pkgs]
-            if unknown or not self.failed:
-                raise core.InfraError("probe infrastructure does not compile:\n" + p.stdout[-3000:])
-        good = [n for n in names if n not in self.failed]
-        with open(os.path.join(self.dir, "main.go"), "w") as f:
-            f.write("package main\n\nimport (\n\t\"probe.test/rt\"\n%s\n)\n\nfunc main() { rt.Main() }\n" %
-                    "\n".join('\t_ "probe.test/%s"' % n for n in good))
-        # packages that failed must not break the link: move them aside
+        out = os.path.join(self.dir, "probe.bin")
+        # pass 1: unresolvable imports (go build stops at the first few; go list -e reports all)
+        p = core.sh(["go", "list", "-e"] + (["-tags", tags] if tags else []) +
+                    ["-f", "{{.ImportPath}}\t{{if .Error}}{{.Error.Err}}{{end}}\t{{range .DepsErrors}}{{.Err}};{{end}}", "./..."],
+                    cwd=self.dir, check=False, timeout=3600)
+        for line in p.stdout.split("\n"):
+            parts = line.split("\t")
+            if len(parts) == 3 and parts[0].startswith("probe.test/") and (parts[1].strip() or parts[2].strip()):
+                n = parts[0][len("probe.test/"):].split("/")[0]
+                if n in self.pkgs:
+                    self.failed[n] = [(parts[1] + " " + parts[2]).strip()[:500]]
         for n in self.failed:
             shutil.move(os.path.join(self.dir, n), os.path.join(self.dir, "_failed_" + n))
-        out = os.path.join(self.dir, "probe.bin")
-        cmd = ["go", "build"] + (["-race"] if race else []) + (["-tags", tags] if tags else []) + ["-o", out, "."]
-        core.sh(cmd, cwd=self.dir, timeout=3600)
-        self.bin = out
-        return good
+        # pass 2: type errors (go build reports every failing package)
+        p = core.sh(["go", "build"] + (["-tags", tags] if tags else []) + ["./..."], cwd=self.dir, check=False, timeout=3600)
+        if p.returncode != 0:
+            found = self._parse_failures(p.stdout)
+            if not found:
+                raise core.InfraError("probe infrastructure does not compile:\n" + p.stdout[-3000:])
+            for n, msg in found.items():
+                if n not in self.failed:
+                    self.failed[n] = msg
+                    shutil.move(os.path.join(self.dir, n), os.path.join(self.dir, "_failed_" + n))
+        for attempt in range(10):
+            good = [n for n in sorted(self.pkgs) if n not in self.failed]
+            with open(os.path.join(self.dir, "main.go"), "w") as f:
+                f.write("package main\n\nimport (\n\t\"probe.test/rt\"\n%s\n)\n\nfunc main() { rt.Main() }\n" %
+                        "\n".join('\t_ "probe.test/%s"' % n for n in good))
+            cmd = ["go", "build"] + (["-race"] if race else []) + (["-tags", tags] if tags else []) + ["-o", out, "."]
+            p = core.sh(cmd, cwd=self.dir, check=False, timeout=3600)
+            if p.returncode == 0:
+                self.bin = out
+                return good
+            found = self._parse_failures(p.stdout)
+            new = {k: v for k, v in found.items() if k not in self.failed}
+            if not new:
+                raise core.InfraError("probe infrastructure does not compile:\n" + p.stdout[-3000:])
+            for n, msg in new.items():
+                self.failed[n] = msg
+                shutil.move(os.path.join(self.dir, n), os.path.join(self.dir, "_failed_" + n))
+        raise core.InfraError("probe build does not converge")
 
     # ------------------------------------------------------------------ run
     def run(self, scripts, procs=None, env=None):
@@ -153,8 +188,11 @@ class Probe:
                 except queue.Empty:
                     break
                 if p is None or p.poll() is not None:
+                    penv = dict(env or os.environ)
+                    for k in [k for k in penv if k.startswith("VERIF_UNSET")]:
+                        del penv[k]
                     p = subprocess.Popen([self.bin], stdin=subprocess.PIPE, stdout=subprocess.PIPE,
-                                         stderr=subprocess.PIPE, text=True, bufsize=1, env=env)
+                                         stderr=subprocess.PIPE, text=True, bufsize=1, env=penv)
                 try:
                     p.stdin.write(json.dumps(s) + "\n")
                     p.stdin.flush()
